@@ -1,9 +1,12 @@
 (* C15 — Character arrays and strings round-trip, including the terminator.
-   Statements only; proofs in C15/Proofs.v.  Units are 8/16/32-bit code units; a str is a list of
-   code points (lone surrogates allowed). *)
+   Statements only; proofs in C15/WProofs.v (the regenerated wide-character helpers) and C15/Proofs.v.
+   Units are 8/16/32-bit code units; a str is a list of code points (lone surrogates allowed).
+   size16, as_char16_loop, from_char16, count_surrogates, join16_loop, as_single_char16/32 are the
+   definitions REGENERATED from src/c/wchar_helper_3.h into C15/Gen.v on every run: a changed threshold
+   or range test in the source changes Gen.v and these statements are re-proved against it. *)
 From Coq Require Import ZArith List Bool.
 Import ListNotations.
-From Cffi Require Import C15.Model C15.Proofs.
+From Cffi Require Import C15.Model C15.WProofs C15.Proofs.
 Open Scope Z_scope.
 
 (* the size computed separately (for the allocation and the length test) is exactly the number of
@@ -18,6 +21,97 @@ Theorem C15_decode16_encode16 : forall s us, valid_str s -> count_surrogates s =
   as_char16_loop s = Ok us -> from_char16 us = Ok s.
 Proof. exact decode16_encode16. Qed.
 Print Assumptions C15_decode16_encode16.
+
+(* the same for EVERY list of non-negative code points on which the writer succeeds (no validity
+   assumption): the allocation computed by _my_PyUnicode_SizeAsChar16 is exactly the number of units
+   _my_PyUnicode_AsChar16 writes *)
+Theorem C15_size16_agrees_with_writer : forall s us, Forall (fun c => 0 <= c) s ->
+  as_char16_loop s = Ok us -> zlen us = size16 s.
+Proof. exact as_char16_loop_length. Qed.
+Print Assumptions C15_size16_agrees_with_writer.
+
+(* the writer fails only with ValueError and only on a code point above 0x10FFFF (no Python str has one) *)
+Theorem C15_as_char16_error : forall s e, Forall (fun c => 0 <= c) s ->
+  as_char16_loop s = Err e -> e = ValueError /\ exists c, In c s /\ 0x10FFFF < c.
+Proof. exact as_char16_loop_error. Qed.
+Print Assumptions C15_as_char16_error.
+
+(* every unit written fits a char16_t (the u16 truncation of the store never changes a value) *)
+Theorem C15_as_char16_units_are_16bit : forall s us, valid_str s -> as_char16_loop s = Ok us ->
+  Forall (fun u => 0 <= u < 0x10000) us.
+Proof. exact as_char16_loop_units16. Qed.
+Print Assumptions C15_as_char16_units_are_16bit.
+
+(* the regenerated range tests of _my_PyUnicode_FromChar16 are the UTF-16 surrogate ranges, and the
+   test of its counting loop is the conjunction of the two tests of its converting loop *)
+Theorem C15_regenerated_surrogate_tests : forall a b,
+  (fc16_hi_test a = true <-> 0xD800 <= a <= 0xDBFF) /\
+  (fc16_lo_test b = true <-> 0xDC00 <= b <= 0xDFFF) /\
+  fc16_pair_test a b = fc16_hi_test a && fc16_lo_test b.
+Proof. intros a b. split; [apply is_hi_range|]. split; [apply is_lo_range|apply pair_test_eq]. Qed.
+Print Assumptions C15_regenerated_surrogate_tests.
+
+(* _my_PyUnicode_FromChar16, every unit list: the converting loop writes exactly
+   size - count_surrogates items, i.e. the str allocated by PyUnicode_New is filled exactly (never
+   BufferMisuse), and the result is the unit list with every adjacent (high, low) pair joined *)
+Theorem C15_from_char16_allocation_exact : forall w,
+  zlen (join16_loop w) + count_surrogates w = zlen w.
+Proof. exact join16_length. Qed.
+Print Assumptions C15_from_char16_allocation_exact.
+
+Theorem C15_from_char16_total : forall w, from_char16 w = Ok (join16_loop w).
+Proof. exact from_char16_join. Qed.
+Print Assumptions C15_from_char16_total.
+
+(* THE round trip through char16_t for EVERY str s: from_char16 (as_char16 s) is s with every adjacent
+   (high surrogate code point, low surrogate code point) pair - scanned left to right - replaced by
+   the astral code point the two spell; all other code points, lone surrogates included, come back
+   unchanged and in place ... *)
+Theorem C15_decode16_encode16_general : forall s us, valid_str s -> as_char16_loop s = Ok us ->
+  from_char16 us = Ok (join16_loop s).
+Proof. exact decode16_encode16_general. Qed.
+Print Assumptions C15_decode16_encode16_general.
+
+(* ... hence s round-trips EXACTLY when it has no high surrogate immediately followed by a low one
+   (lone surrogates anywhere else are fine) *)
+Theorem C15_decode16_encode16_iff : forall s us, valid_str s -> as_char16_loop s = Ok us ->
+  (from_char16 us = Ok s <-> count_surrogates s = 0).
+Proof. exact decode16_encode16_iff. Qed.
+Print Assumptions C15_decode16_encode16_iff.
+
+Theorem C15_no_pair_iff : forall w, count_surrogates w <> 0 <->
+  exists l1 a b l2, w = l1 ++ a :: b :: l2 /\ is_hi a = true /\ is_lo b = true.
+Proof. exact count_pos_has_pair. Qed.
+Print Assumptions C15_no_pair_iff.
+
+(* single characters (_my_PyUnicode_AsSingleChar16/32): one unit, the one the array conversion writes for
+   the same one-character str; astral characters are refused for char16_t *)
+Theorem C15_as_single_char16 : forall s, valid_str s ->
+  as_single_char16 s = match s with [c] => if 0xFFFF <? c then None else Some c | _ => None end.
+Proof. exact as_single_char16_spec. Qed.
+Print Assumptions C15_as_single_char16.
+
+Theorem C15_as_single_char16_agrees : forall s u, valid_str s ->
+  as_single_char16 s = Some u -> as_char16_loop s = Ok [u].
+Proof. exact as_single_char16_agrees. Qed.
+Print Assumptions C15_as_single_char16_agrees.
+
+Theorem C15_as_single_char32 : forall s, valid_str s ->
+  as_single_char32 s = match s with [c] => Some c | _ => None end.
+Proof. exact as_single_char32_spec. Qed.
+Print Assumptions C15_as_single_char32.
+
+(* non-vacuity: lone surrogates round-trip (also low before high); an adjacent pair is joined; U+10000
+   and U+10FFFF take two units and U+FFFF one *)
+Example C15_example_lone_surrogates :
+  as_char16_loop [0xD800; 0x41; 0xDC00; 0xDFFF; 0xDBFF] = Ok [0xD800; 0x41; 0xDC00; 0xDFFF; 0xDBFF] /\
+  from_char16 [0xD800; 0x41; 0xDC00; 0xDFFF; 0xDBFF] = Ok [0xD800; 0x41; 0xDC00; 0xDFFF; 0xDBFF] /\
+  count_surrogates [0xD800; 0x41; 0xDC00; 0xDFFF; 0xDBFF] = 0 /\
+  from_char16 [0x41; 0xD83D; 0xDE00; 0xDE00] = Ok [0x41; 0x1F600; 0xDE00] /\
+  as_char16_loop [0xFFFF; 0x10000; 0x10FFFF] = Ok [0xFFFF; 0xD800; 0xDC00; 0xDBFF; 0xDFFF] /\
+  size16 [0xFFFF; 0x10000; 0x10FFFF] = 5 /\ size16 [0x41; 0xFFFF] = 2 /\
+  as_char16_loop [0x41; 0x110000] = Err ValueError.
+Proof. vm_compute. repeat split; reflexivity. Qed.
 
 (* ... and not otherwise: two adjacent surrogate code points come back as one astral code point
    (finding "adjacent_surrogates", inherent to UTF-16) *)
